@@ -200,6 +200,7 @@ class CallMixin:
                   self_val=fv.self_val)
         self.stack.append(fr)
         saved_handlers = None
+        n_events_before = len(self.events)
         try:
             try:
                 self.exec_block(func.node.body, fr)
@@ -209,8 +210,22 @@ class CallMixin:
         finally:
             self.stack.pop()
         if is_gen:
-            ys = [e for e in self.events if e.kind == "yield" and e.func == func.qualname]
-            return Term("generator", (func.qualname,), kind="generator", node=node)
+            # the generator is evaluated eagerly (its body ran above); what it yields, in order, stands for it
+            ys = [e for e in self.events[n_events_before:] if e.kind == "yield" and e.func == func.qualname]
+            items: List[Any] = []
+            for e in ys:
+                v = e.data.get("value")
+                if e.data.get("from_"):
+                    v = self._unwrap1(v) if isinstance(v, V) else v
+                    if isinstance(v, (ListV, TupleV)) and v.concrete():
+                        items.extend(v.items)
+                    else:
+                        items.append(Spread(v))
+                else:
+                    items.append(v)
+            g = ListV(items)
+            g.generator_of = func.qualname  # type: ignore
+            return g
         return ret
 
     def _ret_kind(self, func: FuncInfo) -> Optional[str]:
@@ -311,7 +326,30 @@ class CallMixin:
         init = ci.lookup("__init__")
         if init is not None:
             self._call_func(FuncV(init, inst), args, kwargs, node)
+        elif self._record_class(ci):
+            # typing.NamedTuple / @dataclass: the synthesised __init__ stores its arguments in the annotated fields
+            fields = [(st.target.id, st.value) for c in reversed(ci.mro()) for st in c.body
+                      if isinstance(st, ast.AnnAssign) and isinstance(st.target, ast.Name)]
+            pos = [a for a in args if isinstance(a, V)]
+            for i, (name, default) in enumerate(fields):
+                if i < len(pos):
+                    inst.attrs[name] = pos[i]
+                elif name in kwargs:
+                    inst.attrs[name] = kwargs[name]
+                elif default is not None:
+                    inst.attrs[name] = self.eval(default, Frame(None, ci.module, {}))
         return inst
+
+    @staticmethod
+    def _record_class(ci: ClassInfo) -> bool:
+        for c in ci.mro():
+            if any(str(b).split(".")[-1] == "NamedTuple" for b in c.ext_bases()):
+                return True
+            for d in c.node.decorator_list:
+                f = d.func if isinstance(d, ast.Call) else d
+                if (isinstance(f, ast.Name) and f.id == "dataclass") or (isinstance(f, ast.Attribute) and f.attr == "dataclass"):
+                    return True
+        return False
 
     def _construct_exc(self, v: V, args: List[V], node: Any) -> ExcV:
         if isinstance(v, ClassV):
@@ -529,6 +567,12 @@ class CallMixin:
             return DictV([])
         if args and isinstance(args[0], DictV):
             return DictV(list(args[0].items))
+        if args and isinstance(args[0], (ListV, TupleV)) and args[0].concrete() and not kwargs and all(
+                isinstance(x, (TupleV, ListV)) and x.concrete() and len(x.items) == 2 for x in args[0].items):
+            d = DictV([])
+            for x in args[0].items:          # dict(<pairs>): later pairs overwrite earlier ones with an equal key
+                d.store(x.items[0], x.items[1])
+            return d
         if args:
             return DictV([Spread(args[0])])
         return DictV([(Const(k), v) for k, v in kwargs.items()])
@@ -643,6 +687,29 @@ class CallMixin:
             self.emit("write", node, how="setattr_call", target=args[0], attr=args[1], value=args[2])
         return Const(None)
 
+    def _concat(self, seqs: List[V], node: Any) -> V:
+        items: List[Any] = []
+        for x in seqs:
+            x = self._unwrap1(x)
+            if isinstance(x, (ListV, TupleV)):
+                items.extend(x.items)           # Spread members stay Spread members
+            elif isinstance(x, Const) and isinstance(x.value, (tuple, list, str)):
+                items.extend(Const(i) for i in x.value)
+            else:
+                items.append(Spread(x))
+        return ListV(items)
+
+    def x_itertools_chain(self, args: List[V], kwargs: Dict[str, V], node: Any) -> Optional[V]:
+        if any(isinstance(a, Spread) for a in args):
+            return None
+        return self._concat(list(args), node)
+
+    def x_itertools_chain_from_iterable(self, args: List[V], kwargs: Dict[str, V], node: Any) -> Optional[V]:
+        x = self._unwrap1(args[0]) if args else None
+        if isinstance(x, (ListV, TupleV)) and x.concrete():
+            return self._concat(list(x.items), node)
+        return None
+
     def x_reversed(self, args: List[V], kwargs: Dict[str, V], node: Any) -> Optional[V]:
         x = self._unwrap1(args[0]) if args else None
         if isinstance(x, (ListV, TupleV)) and x.concrete():
@@ -703,6 +770,18 @@ class CallMixin:
                 return Const(None)
             if attr == "copy":
                 return ListV(list(recv.items))
+            if attr == "pop" and recv.concrete() and not kwargs and len(args) <= 1:
+                i = args[0].value if args and isinstance(args[0], Const) and isinstance(args[0].value, int) else (-1 if not args else None)
+                if i is not None:
+                    if -len(recv.items) <= i < len(recv.items):
+                        return recv.items.pop(i)
+                    return self.implicit_raise(IndexError, node, op="pop", operands=(recv,))
+            if attr == "reverse" and recv.concrete():
+                recv.items.reverse()
+                return Const(None)
+            if attr == "clear":
+                recv.items.clear()
+                return Const(None)
         if isinstance(recv, DictV):
             if attr == "items":
                 return Term("items", (recv,), kind="iterator", node=node)
@@ -720,6 +799,8 @@ class CallMixin:
                     return v
                 if recv.concrete() and all(isinstance(k, Const) for k, _ in recv.pairs()) and isinstance(args[0], Const):
                     return args[1] if len(args) > 1 else Const(None)
+                if recv.concrete() and all(self._equal(k, args[0]) is False for k, _ in recv.pairs()):
+                    return args[1] if len(args) > 1 else Const(None)      # no key can be equal to the argument
                 return Term("dget", (recv,) + tuple(args), node=node)
             if attr == "update" and args:
                 src = args[0]
@@ -734,14 +815,15 @@ class CallMixin:
                 return Const(None)
             if attr == "copy":
                 return DictV(list(recv.items))
-            if attr == "setdefault" and args:
-                v = recv.lookup(args[0])
-                if v is not None:
-                    return v
-                if recv.concrete() and all(self._equal(k, args[0]) is False for k, _ in recv.pairs()):
-                    dv = args[1] if len(args) > 1 else Const(None)
-                    recv.store(args[0], dv)
-                    return dv
+            if attr == "setdefault" and args and recv.concrete():
+                # d.setdefault(k, v)  ==  d[k] if k in d else (d[k] := v): the membership test case-splits on the
+                # declared tokens exactly like `k in d` does
+                present = self.compare("in", args[0], recv, node)
+                if self.decide(present, node):
+                    return self.getitem(recv, args[0], node)
+                dv = args[1] if len(args) > 1 else Const(None)
+                recv.store(self.resolve(args[0]), dv)
+                return dv
         if isinstance(recv, SetV):
             if attr == "add" and args:
                 recv.items.append(args[0])
@@ -783,16 +865,25 @@ class CallMixin:
                         if spec:
                             ok = False
                             break
-                        if field == "":
+                        try:
+                            import _string as _cstring
+                            first, rest = _cstring.formatter_field_name_split(field)
+                            rest = list(rest)
+                        except Exception:
+                            ok = False
+                            break
+                        if first == "":
                             v = args[auto] if auto < len(args) else None
                             auto += 1
-                        elif field.isdigit():
-                            v = args[int(field)] if int(field) < len(args) else None
+                        elif isinstance(first, int):
+                            v = args[first] if first < len(args) else None
                         else:
-                            v = kwargs.get(field)
+                            v = kwargs.get(first)
                         if v is None:
                             ok = False
                             break
+                        for is_attr, name in rest:      # {error.path} / {pair[0]}: attribute and index steps of the field
+                            v = self.getattr(v, name, node) if is_attr else self.getitem(v, Const(name), node)
                         if isinstance(v, Const) and isinstance(v.value, str) and not conv:
                             pieces2.append(v.value)
                         elif isinstance(v, StrV) and not conv:
